@@ -119,11 +119,14 @@ class Contract:
         self.modifies_types.update(typed)
         return self
 
-    def loops(c_self, while_rule=False, **carried):
-        """Invariant of the loops over collections of symbolic size in this function: the shape of every loop-carried variable."""
+    def loops(c_self, while_rule=False, body_check=None, **carried):
+        """Invariant of the loops over collections of symbolic size in this function: the shape of every loop-carried variable;
+        body_check(it, env, trace_mark) -> [(label, goal)]: element-wise postcondition of one arbitrary iteration."""
         spec = dict(carried)
         if while_rule:
             spec["__while__"] = True
+        if body_check is not None:
+            spec["__body_check__"] = body_check
         LOOP_SPECS[c_self.key] = spec
         return c_self
 
